@@ -904,8 +904,22 @@ class Interp:
                 post_env[m] = nv
                 rebinds[m] = nv
             result = None
+            functional = None
             if c.returns:
-                result = self.fresh(c.returns, 'r_' + c.qualname.split('.')[-1])
+                # a postcondition `result == <spec term>` defines the result: use the term itself (so that
+                # lemma triggers match syntactically) instead of a fresh constant constrained by an equation
+                for cl in c.ensures:
+                    n = cl.node
+                    if (isinstance(n, ast.Compare) and len(n.ops) == 1 and isinstance(n.ops[0], ast.Eq)
+                            and isinstance(n.left, ast.Name) and n.left.id == 'result' and not c.forall
+                            and not any(isinstance(x, ast.Name) and x.id == 'result' for x in ast.walk(n.comparators[0]))):
+                        self.env, self.old_env = post_env, dict(vals)
+                        try:
+                            functional = (cl, self.coerce(self.ev_pure(n.comparators[0]), c.returns))
+                        finally:
+                            self.env, self.old_env = cenv, dict(vals)
+                        break
+                result = functional[1] if functional else self.fresh(c.returns, 'r_' + c.qualname.split('.')[-1])
                 post_env['result'] = result
             elif c.yields:
                 result = self.fresh(c.yields, 'y_' + c.qualname.split('.')[-1])
@@ -926,7 +940,7 @@ class Interp:
                       for i, (n, s) in enumerate(c.forall.items())}
                 self.counter += len(qv)
                 self.env.update(qv)
-            facts = [self.to_bool(self.ev_pure(cl.node)) for cl in c.ensures]
+            facts = [self.to_bool(self.ev_pure(cl.node)) for cl in c.ensures if not (functional and cl is functional[0])]
         finally:
             self.env, self.old_env = saved_env, saved_old
         for f in facts:
